@@ -6,7 +6,15 @@
        out-of-gas halt (halmos: MAX_MEMORY_SIZE; regenerated into Gen/GenConsts.v);
      - CREATE addresses come from a counter: 0xAAAA0000 + 1 + n for the n-th CREATE
        executed on the path (halmos: new_address); nonces are not modelled;
-     - GAS, GASPRICE, BLOCKHASH, SELFDESTRUCT, CREATE2, precompiles and cheatcode
+     - CREATE2 addresses are the EVM's (EIP-1014: the low 160 bits of
+       keccak256(0xff ++ sender ++ salt ++ keccak256(init code))), passed through the
+       renaming [c2name] given by the association list [b_c2names] of the block context:
+       the EMPTY list is the EVM itself.  halmos does not compute these addresses, it NAMES
+       them (0xBBBB0000 + the registration number of the hash term on the path); the L2 tie
+       computes, per path and input, which EVM address each name stands for and hands that
+       list to the reference, so that the two can be compared at all.  Everything about
+       CREATE2 except the name of the new account is the reference's own;
+     - GAS, GASPRICE, BLOCKHASH, SELFDESTRUCT, precompiles and cheatcode
        addresses are outside the subset: the interpreter answers [RUnsupported].
    Words are Z in [0, 2^256); bytes are Z in [0, 256).  No proofs in this file. *)
 From Coq Require Import ZArith NArith List Bool.
@@ -33,6 +41,7 @@ Record world := mkWorld {
 Record blockctx := mkBlock {
   b_basefee : Z; b_chainid : Z; b_coinbase : Z; b_difficulty : Z;
   b_gaslimit : Z; b_number : Z; b_timestamp : Z;
+  b_c2names : list (Z * Z);   (* naming of CREATE2 addresses (EVM address, name); [] = the EVM *)
 }.
 
 Record env := mkEnv {
@@ -267,6 +276,50 @@ Definition do_create (e : env) (s : mstate) : step_result :=
   | _ => halt s H_UNDERFLOW
   end.
 
+(* CREATE2 (EIP-1014).  The address does not depend on a nonce, so the CREATE counter is NOT
+   consumed; everything after the choice of the address is CREATE's: depth limit, funds,
+   collision (the address already names an account), creation frame, code deposit, rollback
+   and returndata on failure. *)
+Definition create2_preimage (sender salt : Z) (init : list Z) : list Z :=
+  255 :: be_bytes 20 sender ++ be_bytes 32 salt ++ be_bytes 32 (keccak_bytes init).
+Definition create2_address (sender salt : Z) (init : list Z) : Z :=
+  keccak_bytes (create2_preimage sender salt init) mod 2 ^ 160.
+Definition c2name (b : blockctx) (a : Z) : Z :=
+  match alookup a (b_c2names b) with Some n => n | None => a end.
+
+Definition do_create2 (e : env) (s : mstate) : step_result :=
+  match s_stack s with
+  | v :: off :: size :: salt :: r =>
+      if e_static e then halt s H_STATIC
+      else if oog_range off size then halt s H_OOG
+      else
+        let m1 := mexpand (s_mem s) (Z.to_nat off) (Z.to_nat size) in
+        let init := mread m1 (Z.to_nat off) (Z.to_nat size) in
+        let ctr := s_ctr s in
+        let new := c2name (e_block e) (create2_address (e_this e) salt init) in
+        let w := s_world s in
+        let fail_now (ret : list Z) (ctr' : Z) :=
+          Continue (mkSt (S (s_pc s)) (0 :: r) m1 ret w ctr' (s_logs s)) in
+        if (1024 <? Z.of_nat (e_depth e) + 1) then fail_now [] ctr
+        else if get_balance w (e_this e) <? v then fail_now [] ctr
+        else if has_account w new then fail_now [] ctr
+        else
+          let w0 := mkWorld (aset new [] (w_code w)) (aset new [] (w_storage w))
+                            (aset new [] (w_transient w)) (w_balance w) in
+          let w1 := transfer w0 (e_this e) new v in
+          let sub := mkEnv new init (e_this e) (e_origin e) v [] false (S (e_depth e)) (e_block e) in
+          match run_sub sub w1 ctr with
+          | ROk w2 ctr' ret logs =>
+              let w3 := mkWorld (aset new ret (w_code w2)) (w_storage w2) (w_transient w2) (w_balance w2) in
+              Continue (mkSt (S (s_pc s)) (new :: r) m1 [] w3 ctr' (s_logs s ++ logs))
+          | RRevert ctr' ret => fail_now ret ctr'
+          | RHalt ctr' _ => fail_now [] ctr'
+          | RFuel => Done RFuel
+          | RUnsupported x => Done (RUnsupported x)
+          end
+  | _ => halt s H_UNDERFLOW
+  end.
+
 Definition do_log (e : env) (s : mstate) (ntopics : nat) : step_result :=
   match s_stack s with
   | off :: size :: r =>
@@ -295,7 +348,7 @@ Inductive instr :=
 | IReturndatacopy | IExtcodehash | IPop | IMload | IMstore | IMstore8 | ISload | ISstore
 | IJump | IJumpi | IJumpdest | ITload | ITstore | IMcopy | IPush0
 | IPush (n : nat) | IDup (n : nat) | ISwap (n : nat) | ILog (n : nat)
-| ICreate | ICall (op : Z) | IReturn | IRevert | IInvalid | IUnsupported (op : Z).
+| ICreate | ICreate2 | ICall (op : Z) | IReturn | IRevert | IInvalid | IUnsupported (op : Z).
 
 Definition bop_sem (b : bop) : Z -> Z -> Z :=
   match b with
@@ -336,7 +389,7 @@ Definition decode_op (op : Z) : instr :=
   | 91 => IJumpdest | 92 => ITload | 93 => ITstore | 94 => IMcopy | 95 => IPush0
   | 240 => ICreate | 241 | 242 | 244 | 250 => ICall op
   | 243 => IReturn | 253 => IRevert
-  | 245 => IUnsupported 245 | 254 => IInvalid | 255 => IUnsupported 255
+  | 245 => ICreate2 | 254 => IInvalid | 255 => IUnsupported 255
   | _ => IInvalid                                            (* undefined opcode *)
   end.
 
@@ -473,6 +526,7 @@ Definition step_i (i : instr) (e : env) (s : mstate) : step_result :=
       | _ => halt s H_UNDERFLOW end
   | IPush0 => push s 0
   | ICreate => do_create e s
+  | ICreate2 => do_create2 e s
   | ICall op => do_call e s op
   | IReturn | IRevert =>
       match st with
